@@ -133,8 +133,13 @@ func genCpsWrite(rnd *rand.Rand, key []byte, vals [][]byte) cpsWrite {
 			name = "hmset"
 		}
 		w := cpsWrite{args: [][]byte{bs(name), key}}
+		longNames := rnd.Intn(2) == 0 // field names that are themselves long and compressible: they are not values
 		for i, val := range vals {
-			w.args = append(w.args, bs(fmt.Sprintf("fld%d", i)), val)
+			fld := fmt.Sprintf("fld%d", i)
+			if longNames {
+				fld = fmt.Sprintf("fld%d:%s", i, strings.Repeat("name", 1+len(val)/3+rnd.Intn(300)))
+			}
+			w.args = append(w.args, bs(fld), val)
 			w.valueIdx = append(w.valueIdx, 3+2*i)
 		}
 		return w
